@@ -19,6 +19,10 @@ pub struct CrashCase {
     pub rm: Option<u16>,
     /// restrict to one crash point (replay / shrinking); None = every prefix
     pub only_prefix: Option<usize>,
+    /// malformed-export variant: (source entry, insert offset, mode) - entries with an id that is already present are
+    /// inserted after the original; mode 0 = exact copy, 1 = other QoS / other kind with the same id
+    #[serde(default)]
+    pub pollute: Vec<(u16, u16, u8)>,
 }
 
 pub fn profile() -> Profile {
@@ -59,8 +63,8 @@ fn suffix_op() -> BoxedStrategy<Op> {
 pub fn strategy() -> BoxedStrategy<CrashCase> {
     let cfgs = (proptest::sample::select(vec![Role::Client, Role::Server, Role::Any]), proptest::sample::select(vec![CVer::V311, CVer::V5]), prop_oneof![4 => Just(2usize), 1 => Just(4usize)])
         .prop_map(|(role, ver, idw)| ConnCfg { role, ver, idw });
-    cfgs.prop_flat_map(|cfg| (history_for(profile(), cfg, no_hostile()), proptest::collection::vec(suffix_op(), 0..14), proptest::option::of(1u16..4)))
-        .prop_map(|(mut h, suffix, rm)| {
+    cfgs.prop_flat_map(|cfg| (history_for(profile(), cfg, no_hostile()), proptest::collection::vec(suffix_op(), 0..14), proptest::option::of(1u16..4), prop_oneof![2 => Just(vec![]), 1 => proptest::collection::vec((any::<u16>(), any::<u16>(), 0u8..2), 1..4)]))
+        .prop_map(|(mut h, suffix, rm, pollute)| {
             // persistent sessions only: every handshake of the history asks for a kept session
             for op in h.ops.iter_mut() {
                 match op {
@@ -74,7 +78,7 @@ pub fn strategy() -> BoxedStrategy<CrashCase> {
                     _ => {}
                 }
             }
-            CrashCase { h, suffix, rm, only_prefix: None }
+            CrashCase { h, suffix, rm, only_prefix: None, pollute }
         })
         .boxed()
 }
@@ -126,22 +130,58 @@ fn crash_at(c: &CrashCase, k: usize, st: &mut Stats) -> R {
     let in_flight: BTreeSet<u32> = x.app.out_q1.iter().chain(&x.app.out_q2_rec).chain(&x.app.out_q2_rel).chain(&x.app.out_q2_comp).cloned().collect();
     let exportable = in_flight == exported_ids;
     // ---- the restored object
-    let mut y = World::new(cfg);
-    if let Err(p) = y.c.restore_packets(&stored) {
-        return Err(fail("C16.panic_on_malformed", "restore_of_own_export", format!("restore_packets of the library's own export failed: {p}")));
+    let make = |export: &[AP], what: &str| -> Result<World, Fail> {
+        let mut y = World::new(cfg);
+        if let Err(p) = y.c.restore_packets(export) {
+            return Err(fail("C16.panic_on_malformed", what, format!("restore_packets failed: {p}")));
+        }
+        y.c.restore_qos2_handled(&handled);
+        // option setters are application configuration: re-applied on the new object
+        for o in [Opt::AutoPub(x.t.auto_pub), Opt::AutoPing(x.t.auto_ping), Opt::AutoMap(x.t.auto_map), Opt::AutoReplace(x.t.auto_replace), Opt::Offline(x.t.offline), Opt::PingrespTimeout(x.t.pingresp_timeout), Opt::PingInterval(x.t.ping_override)] {
+            y.exec(&Op::SetOpt(o));
+        }
+        // the application's knowledge of its exchanges survives with the export (ids, phases)
+        y.app.out_q1 = x.app.out_q1.intersection(&exported_ids).cloned().collect();
+        y.app.out_q2_rec = x.app.out_q2_rec.intersection(&exported_ids).cloned().collect();
+        y.app.out_q2_comp = x.app.out_q2_comp.intersection(&exported_ids).cloned().collect();
+        y.app.peer_ids_seen = x.app.peer_ids_seen.clone();
+        y.app.tag = x.app.tag + 1000;
+        y.t.v = Some(v);
+        Ok(y)
+    };
+    let mut y = make(&stored, "restore_of_own_export")?;
+    // ---- malformed variant: the same export with entries whose id is already present; they are skipped, so the object
+    //      restored from it is indistinguishable from the one restored from the clean export
+    let mut z: Option<World> = None;
+    if !c.pollute.is_empty() && !stored.is_empty() {
+        let mut polluted = stored.clone();
+        for (src, off, mode) in &c.pollute {
+            let e = stored[pick_idx(*src, stored.len())].clone();
+            let id = e.packet_id().unwrap_or(0);
+            let extra = match (mode, &e) {
+                (0, _) => e.clone(),
+                (_, AP::Publish { qos, .. }) if off % 2 == 0 => {
+                    let mut a = e.clone();
+                    if let AP::Publish { qos: q, .. } = &mut a {
+                        *q = 3 - *qos;
+                    }
+                    a
+                }
+                (_, AP::Publish { .. }) => ack_ap(v, AckKind::Pubrel, id, 0),
+                _ => publish_ap(v, 1 + (off % 2) as u8, true, false, 0, AliasMode::None, Some(id), vec![9]),
+            };
+            let first = polluted.iter().position(|a| a.packet_id() == Some(id)).unwrap_or(0);
+            let at = first + 1 + pick_idx(*off, polluted.len() - first);
+            polluted.insert(at.min(polluted.len()), extra);
+        }
+        let zz = make(&polluted, "restore_of_export_with_duplicates")?;
+        let diff = state_diff(&y.c.state(), &zz.c.state(), &[]);
+        if !diff.is_empty() {
+            return Err(fail("C16.malformed_ne_clean", format!("{}/state_after_restore", v.name()), format!("restoring {} instead of the clean export {} leaves a different object: {diff:?}", polluted.iter().map(|a| a.brief()).collect::<Vec<_>>().join(", "), stored.iter().map(|a| a.brief()).collect::<Vec<_>>().join(", "))));
+        }
+        st.class("malformed_variant");
+        z = Some(zz);
     }
-    y.c.restore_qos2_handled(&handled);
-    // option setters are application configuration: re-applied on the new object
-    for o in [Opt::AutoPub(x.t.auto_pub), Opt::AutoPing(x.t.auto_ping), Opt::AutoMap(x.t.auto_map), Opt::AutoReplace(x.t.auto_replace), Opt::Offline(x.t.offline), Opt::PingrespTimeout(x.t.pingresp_timeout), Opt::PingInterval(x.t.ping_override)] {
-        y.exec(&Op::SetOpt(o));
-    }
-    // the application's knowledge of its exchanges survives with the export (ids, phases)
-    y.app.out_q1 = x.app.out_q1.intersection(&exported_ids).cloned().collect();
-    y.app.out_q2_rec = x.app.out_q2_rec.intersection(&exported_ids).cloned().collect();
-    y.app.out_q2_comp = x.app.out_q2_comp.intersection(&exported_ids).cloned().collect();
-    y.app.peer_ids_seen = x.app.peer_ids_seen.clone();
-    y.app.tag = x.app.tag + 1000;
-    y.t.v = Some(v);
     // ---- restored ids are in use
     let free = y.c.free_ids();
     for id in &exported_ids {
@@ -157,6 +197,13 @@ fn crash_at(c: &CrashCase, k: usize, st: &mut Stats) -> R {
     let y_as_client = matches!(hs[0], Op::Connect(_));
     for op in &hs {
         y.exec(op);
+        if let Some(zw) = z.as_mut() {
+            zw.exec(op);
+            let (sy, sz) = (y.steps.last().unwrap(), zw.steps.last().unwrap());
+            if sy.events != sz.events || sz.panic.is_some() {
+                return Err(fail("C16.malformed_ne_clean", format!("{}/handshake", v.name()), format!("the object restored from the export with duplicates diverges at the handshake:\n  clean    : {}\n  malformed: {}", sy.brief(), sz.brief())));
+            }
+        }
     }
     if y.dead {
         return Err(fail("C16.panic_on_malformed", "resume_panicked", y.steps.last().and_then(|s| s.panic.clone()).unwrap_or_default()));
@@ -179,6 +226,9 @@ fn crash_at(c: &CrashCase, k: usize, st: &mut Stats) -> R {
         x.exec(&Op::Closed);
         x.app.tag = y.app.tag - 1; // same payload tags from here on
         y.app.tag = x.app.tag;
+        if let Some(zw) = z.as_mut() {
+            zw.app.tag = y.app.tag;
+        }
         for op in &hs {
             x.exec(op);
         }
@@ -222,6 +272,13 @@ fn crash_at(c: &CrashCase, k: usize, st: &mut Stats) -> R {
         if let Call::Recv { ap: Some(AP::Publish { qos: 2, pid: Some(id), .. }), .. } = &sy.call {
             if handled.contains(id) && pre_handled.contains(id) && !sy.has_error() && sy.recvs().iter().any(|a| matches!(a, AP::Publish { .. })) {
                 return Err(fail("C16.q2_dup_notified", v.name(), format!("QoS2 PUBLISH id {id} was notified before the crash (exported as handled) but was notified again after restore")));
+            }
+        }
+        if let Some(zw) = z.as_mut() {
+            zw.exec(op);
+            let sz = zw.steps.last().unwrap();
+            if sy.events != sz.events || sz.panic.is_some() {
+                return Err(fail("C16.malformed_ne_clean", format!("{}/{}", v.name(), step_sig(&sy)), format!("the object restored from the export with duplicates diverges:\n  clean    : {}\n  malformed: {}", sy.brief(), sz.brief())));
             }
         }
         if let Some(x) = xs.as_mut() {
